@@ -271,4 +271,4 @@ impl Scheduler {
 
 #[cfg(kani)]
 #[path = "/verif/harness/may/scheduler.rs"]
-mod verif_kani;
+pub(crate) mod verif_kani;
